@@ -2,6 +2,8 @@ package rules
 
 import (
 	"go/token"
+	"sort"
+	"strings"
 
 	"golang.org/x/tools/go/ssa"
 
@@ -229,6 +231,26 @@ func runC27(c *core.Ctx) {
 		cs   []ssa.CallInstruction
 	}{{"appendHeader2Main", ir.CallsTo(fn, ah)}, {"RestructChain", ir.CallsTo(fn, rc)}} {
 		eng.MustPassCall(c, "C27.canonical", fn, "putBlockHeader", func(ci ssa.CallInstruction) bool { return len(e.puts) > 0 && ci == e.puts[0].Instr }, ir.CallSinks(o.cs, o.desc), o.desc, nil)
+	}
+	// the head that fork choice compares against is re-read after every canonical mutation:
+	// between two canonical-index mutations (also across loop iterations) GetCurrentHeader is called again
+	var muts []ssa.CallInstruction
+	muts = append(muts, ir.CallsTo(fn, ah)...)
+	muts = append(muts, ir.CallsTo(fn, rc)...)
+	for _, m := range muts {
+		blk := m.Block()
+		var next ssa.Instruction
+		for i, in := range blk.Instrs {
+			if in == ssa.Instruction(m) && i+1 < len(blk.Instrs) {
+				next = blk.Instrs[i+1]
+			}
+		}
+		if next == nil {
+			c.Broken("C27.fresh-head", fn, "instruction after canonical mutation", c.P.Rel(m.Pos()), "not found")
+			continue
+		}
+		name := "canonical mutation following " + ir.CalleeObj(m).Name() + " (same transaction)"
+		eng.MustPassCall(c, "C27.fresh-head", fn, "GetCurrentHeader", eng.CallPred(gch), ir.CallSinks(muts, name), name, &eng.Opt{Start: next})
 	}
 	checkBtcCommitHeader(c)
 }
@@ -494,7 +516,64 @@ func runC28(c *core.Ctx) {
 			}
 		}
 		c.Decide(okT, "C28.era-table", fn, "difficulty era dispatch = {ArrowGlacier: 10 700 000, London: 9 700 000, else legacy calculator}", c.P.Rel(fn.Pos()), sprintf("%v", eras))
+		// each era's calculator is selected by the era predicates applied to the header under verification
+		wantSel := map[string]string{"bomb-delay 10700000": "isArrowGlacier=true", "bomb-delay 9700000": "isArrowGlacier=false isLondon=true", "legacy difficultyCalculator": "isArrowGlacier=false isLondon=false"}
+		for i, l := range leaves {
+			if i >= len(eras) || wantSel[eras[i]] == "" {
+				continue
+			}
+			li, isI := l.(ssa.Instruction)
+			if !isI {
+				continue
+			}
+			var sel []string
+			blk := li.Block()
+			for a := blk.Idom(); a != nil; a = a.Idom() {
+				iff, okIf := a.Instrs[len(a.Instrs)-1].(*ssa.If)
+				if !okIf {
+					continue
+				}
+				cl, isCall := iff.Cond.(*ssa.Call)
+				if !isCall || cl.Common().StaticCallee() == nil {
+					continue
+				}
+				nm := cl.Common().StaticCallee().Name()
+				if nm != "isArrowGlacier" && nm != "isLondon" {
+					continue
+				}
+				t, f := a.Succs[0], a.Succs[1]
+				onT := (t == blk || t.Dominates(blk)) && len(t.Preds) == 1
+				onF := (f == blk || f.Dominates(blk)) && len(f.Preds) == 1
+				if onT == onF {
+					continue
+				}
+				sel = append(sel, sprintf("%s=%v", nm, onT))
+			}
+			sort.Strings(sel)
+			c.Decide(strings.Join(sel, " ") == wantSel[eras[i]], "C28.era-table", fn, "calculator "+eras[i]+" selected exactly under "+wantSel[eras[i]], c.P.Rel(l.Pos()), "selected under "+strings.Join(sel, " "))
+			// arguments: (header.Time, parent)
+			if cl, _ := ir.CallOf(l); cl != nil && len(cl.Common().Args) == 2 {
+				c.Decide(e.isParent(cl.Common().Args[1]), "C28.era-table", fn, "calculator "+eras[i]+" is applied to the stored parent", c.P.Rel(l.Pos()), "")
+			}
+		}
 	}
+	// every era predicate in SyncBlockHeader is evaluated on the header under verification (not its parent)
+	nPred := 0
+	for _, b := range fn.Blocks {
+		for _, in := range b.Instrs {
+			cl, ok := in.(*ssa.Call)
+			if !ok || cl.Common().StaticCallee() == nil {
+				continue
+			}
+			nm := cl.Common().StaticCallee().Name()
+			if (nm != "isArrowGlacier" && nm != "isLondon") || cl.Common().StaticCallee().Pkg != fn.Pkg {
+				continue
+			}
+			nPred++
+			c.Decide(e.isHeader(cl.Common().Args[0]), "C28.era-table", fn, sprintf("%s #%d is evaluated on the header under verification", nm, nPred), c.P.Rel(cl.Pos()), "")
+		}
+	}
+	c.Floor("era predicate calls in eth.SyncBlockHeader", nPred, 3)
 	// VerifyGaslimit
 	if f := c.Fn(pkEthHS, "VerifyGaslimit"); f != nil {
 		succ := ir.SuccessSinks(f)
